@@ -36,7 +36,38 @@ pub fn exec_line(line: &str) -> String {
   let parts: Vec<&str> = line.split_whitespace().collect();
   let op = parts[0];
   let a = match ints(&parts[1..]) { Some(v) => v, None => return "bad-op".to_string() };
+  if noise_enabled() {
+    // history pass: before answering, make unusual but legitimate calls about the same year(s); answers must not change
+    for v in a.iter().take(2) { if (1..=9999).contains(v) { noise_year(*v); } }
+  }
   guard(|| crate::dispatch_exec(op, &a))
+}
+
+pub fn noise_enabled() -> bool {
+  static ON: std::sync::OnceLock<bool> = std::sync::OnceLock::new();
+  *ON.get_or_init(|| std::env::var("TYMEH_NOISE").map(|v| v == "1").unwrap_or(false))
+}
+
+/// A battery of unusual but legitimate (or refused) calls about year y — wrapped indices, refused months and days, values
+/// reached through other views — made BEFORE a real query. None of them may influence any later answer (C10); a memo
+/// keyed or filled wrongly by one of them shows up as a difference from the history-free run.
+pub fn noise_year(y: i64) {
+  use tyme4rs::tyme::solar::{SolarTerm, SolarMonth, SolarYear};
+  use tyme4rs::tyme::lunar::{LunarMonth, LunarYear, LunarDay};
+  use tyme4rs::tyme::sixtycycle::{SixtyCycleMonth, SixtyCycleYear};
+  use tyme4rs::tyme::festival::{LunarFestival, SolarFestival};
+  let yi = y as isize;
+  let q = |f: &dyn Fn()| { let _ = std::panic::catch_unwind(std::panic::AssertUnwindSafe(|| f())); };
+  for i in [-30isize, -1, 24, 25, 47, 60] { q(&|| { let t = SolarTerm::from_index(yi, i); let _ = t.get_cursory_julian_day(); }); }
+  for k in [0isize, 11, 12, -1] { q(&|| { let m = SixtyCycleMonth::from_index(yi, k); let _ = m.get_first_day(); let _ = m.get_index_in_year(); }); }
+  q(&|| { let _ = SixtyCycleYear::from_year(yi).get_first_month(); });
+  for m in [13isize, 0, -13, -1, 12] { q(&|| { let _ = LunarMonth::new(yi, m).map(|x| x.get_day_count()); }); }
+  q(&|| { let ly = LunarYear::from_year(yi); let _ = ly.get_leap_month(); let _ = ly.get_month_count(); });
+  q(&|| { let _ = LunarDay::new(yi, 1, 31); });
+  q(&|| { let _ = LunarDay::new(yi, 12, 30).map(|d| d.get_solar_day()); });
+  q(&|| { let _ = tyme4rs::tyme::solar::SolarDay::new(yi, 2, 30); });
+  q(&|| { let _ = SolarMonth::new(yi, 13); let _ = SolarYear::new(yi + 10000); });
+  q(&|| { let _ = LunarFestival::from_index(yi, 12); let _ = LunarFestival::from_index(yi, 13); let _ = SolarFestival::from_index(yi, 10); });
 }
 
 /// run `f(y)` for every y in `years` on all cores and write the results in order.
@@ -64,5 +95,12 @@ where F: Fn(i64) -> String + Sync {
 /// years visited by the sampled tiers: quick = ..=300, every 10th year, 1575..=1590 and the last 3; `all` = all
 pub fn year_selected(y: i64, args: &[String]) -> bool {
   let all = args.get(0).map(|s| s == "all").unwrap_or(false);
-  all || y <= 300 || y % 10 == 0 || y >= 9997 || (1575..=1590).contains(&y)
+  all || y <= 300 || y % 10 == 0 || y >= 9997 || (1575..=1590).contains(&y) || extra_year(y, args)
+}
+
+/// `extra=y1,y2,...`: years added to the sample by the check (years with a term instant within seconds of midnight or noon,
+/// taken from this run's dump): the fragile days of the day-level look-ups
+pub fn extra_year(y: i64, args: &[String]) -> bool {
+  let ys = y.to_string();
+  args.iter().any(|a| a.strip_prefix("extra=").map(|l| l.split(',').any(|t| t == ys)).unwrap_or(false))
 }
